@@ -101,7 +101,7 @@ func Wide(n int) []dump.File {
 func TypedefChain(n, nameLen int, cyclic bool) (dump.File, string) {
 	name := func(i int) string {
 		s := fmt.Sprintf("t%d", i)
-		if nameLen > len(s) {
+		if nameLen > len(s)+1 {
 			s += "_" + Name('x', nameLen-len(s)-1)
 		}
 		return s
